@@ -14,8 +14,9 @@ sed -i "s|path = \"/repo\"|path = \"$WT\"|" "$MH/harness/checks/Cargo.toml"
 for d in "$MD"/$PAT; do
   [ -f "$d/patch.diff" ] || continue
   name=$(basename "$d"); prop=${name%-*}
-  cd "$WT"; git checkout -q -- .
-  git apply "$d/patch.diff" 2>/dev/null || { echo "{\"mutant\":\"$name\",\"property\":\"$prop\",\"applies\":false,\"checks\":{}}" >> "$OUT"; continue; }
+  cd "$WT"; git reset -q --hard; git checkout -q --detach "$(git -C /repo rev-parse HEAD)"
+  # changes written against an older revision: 3-way merge against HEAD, else the revision named by MUTANT_BASE
+  git apply "$d/patch.diff" 2>/dev/null || git apply --3way "$d/patch.diff" 2>/dev/null || { git reset -q --hard; [ -n "${MUTANT_BASE:-}" ] && git checkout -q --detach "$MUTANT_BASE" && git apply "$d/patch.diff" 2>/dev/null; } || { echo "{\"mutant\":\"$name\",\"property\":\"$prop\",\"applies\":false,\"checks\":{}}" >> "$OUT"; continue; }
   results=""
   for id in ${CHECK_IDS:-$(seq -w 1 19)}; do
     rm -f "$MH"/replays/*.json
@@ -23,7 +24,7 @@ for d in "$MD"/$PAT; do
     sig=$(echo "$o" | grep -m1 'signature=' | sed 's/.*signature=//' | cut -c1-80)
     results="$results\"C$id\":{\"rc\":$rc,\"sig\":\"$sig\"},"
   done
-  cd "$WT"; git checkout -q -- .
+  cd "$WT"; git reset -q --hard
   echo "{\"mutant\":\"$name\",\"property\":\"$prop\",\"applies\":true,\"checks\":{${results%,}}}" >> "$OUT"
   echo "$name done"
 done
